@@ -202,12 +202,29 @@ NOT_APPLICABLE = {
 ALL = ["C%02d" % i for i in range(1, 21)]
 
 
+# Sentences added when rules were strengthened against the second round of seeded changes.
+ADDENDA = {
+    "C03": " Also decided: the base a percentage line discount/charge is taken of is, by reaching definitions, the rule-rounded line sum or last assigned from ApplyRoundingRule, and the sum handed in is itself rule-rounded; no running sum in bill/tax is the argument (instead of the receiver) of Add, which would give it the addend's precision (R4).",
+    "C04": " Also decided (R7): no calculation function keeps a plain value computed by a module function from document fields across a statement whose callees rewrite those fields and then uses it (field read/write summaries over the call graph) — the first pass would see the data as typed, the repeat as normalised.",
+    "C08": " Also decided: the schema ID of raw bytes is a member of a value decoded by encoding/json with its error checked (member-order independent; R5), and the canonical string encoder advances its segment cursor only after flushing the pending segment and flushes the tail (R6) — no text is left out of the digest input.",
+    "C09": " The contents-only branch must test the caller's own key list (the parameter must not have been replaced by a filtered copy).",
+    "C11": " Also decided: closed enumerations that JSONSchemaExtend publishes from a package-level table are enforced by the type's validator with validation.In over the same table (R4); the $regime and $addons enumerations are published from the same definition fields the registries take their lookup keys from (R5); patterns assigned in JSONSchemaExtend fall under R2 as well.",
+    "C12": " The document interface's value-date / issue-date getters return the document's own field of that name on every path.",
+    "C14": " Also decided: the num text parsers evaluate 10^e only where e <= 18 is known (short-circuit or dominating guard) — no wrapped or zero power in a range check (R8); a slice of definitions built from registry lookups holds no unchecked lookup result when some caller ranges over it and reads a field of the element without a nil test (R9).",
+    "C15": " Maps of the module's named map types (tax.Extensions, cbc.Meta) are tracked as well: a map that may have been taken from a package-level table (through a field store or a by-value struct copy) is never written or deleted from; the bulk worker is identified by its send, and wg.Done may not run inside a function evaluated for the value being sent.",
+    "C16": " The source envelope receives no call of a method that (transitively) writes fields; CorrectionDefinition.Merge reads every serialised field of both operands, so no requirement of the regime or an addon is dropped when definitions are combined; the CLI/bulk wrappers return the new, validated envelope (R6).",
+    "C18": " The registry lookups that decide `defined` (extension, addon, regime, currency) use the given key exactly — map index and equality only, no derived key (R5).",
+    "C20": " A by-value copy of an operand's row (`x := *row`) counts as installing its pointer members unless each is re-assigned; PaymentLine.calculate applies debit and credit each under no other condition than its own presence.",
+}
+
+
 def main():
     checks = []
     for pid in ALL:
         if pid not in CLAIMS:
             continue
         text, tech, ref = CLAIMS[pid]
+        text += ADDENDA.get(pid, "")
         checks.append({
             "property_id": pid,
             "quick_cmd": "./check %s quick" % pid,
